@@ -70,5 +70,10 @@ Definition scalar_texts_plain (o : sopts) (doc : tsdoc) : bool :=
 
 Definition readback_schema_full : Prop :=
   forall o doc, wf_schema o doc = true -> scalar_texts_plain o doc = true -> readback_schema_ok o doc = true.
+(** the resolvers file declares every type under its schema name, so a type named like a keyword the
+    reader knows is read as that keyword (the known finding resolver-file-name-capture) *)
+Definition no_keyword_type_names (doc : tsdoc) : bool :=
+  forallb (fun td => negb (mem (tname td) EMITTED_KEYWORDS)) (typedefs doc).
 Definition readback_resolvers_full : Prop :=
-  forall ro doc, nodup_keys (map tname (typedefs doc)) = true -> readback_resolvers_ok ro doc = true.
+  forall ro doc, nodup_keys (map tname (typedefs doc)) = true -> no_keyword_type_names doc = true ->
+                 readback_resolvers_ok ro doc = true.
